@@ -381,7 +381,8 @@ class Facts:
         """the body holding the code of `name`: for an async fn its {closure#0} coroutine"""
         b = self.get(name)
         cc = b.closures_created()
-        if len(b.blocks) <= 4 and len(cc) == 1 and cc[0][2]['rv']['ak'] == 'coroutine':
+        nb = sum(1 for x in b.blocks if not x.get('cleanup'))
+        if nb <= 8 and len(cc) == 1 and cc[0][2]['rv']['ak'] == 'coroutine':
             return self.get(cc[0][3])
         return b
 
